@@ -549,6 +549,8 @@ struct Minimiser {
         tryEdit([a](Op &o) { if (a < (int)o.actions.size()) o.actions.erase(o.actions.begin() + a); });
       tryEdit([](Op &o) { o.enumThrow = 0; });
       tryEdit([](Op &o) { o.sched.clear(); o.schedMode = 0; });
+      if (!best.ops[i].sched.empty() && best.ops[i].sched.size() <= 400)
+        shrinkList<std::vector<int>>(best, [i](Plan &p) -> std::vector<int> & { return p.ops[i].sched; });
       tryEdit([](Op &o) { o.clock = 0; });
       tryEdit([](Op &o) { o.stdoutBad = 0; });
       tryEdit([](Op &o) { o.allocFail = -1; });
@@ -566,6 +568,8 @@ struct Minimiser {
         if (planToText(cand) != planToText(best) && fails(cand)) best = cand;
       };
       tryEdit([](Variant &v) { v.sched.clear(); v.schedMode = 1; });
+      if (!best.variants[i].sched.empty() && best.variants[i].sched.size() <= 400)
+        shrinkList<std::vector<int>>(best, [i](Plan &p) -> std::vector<int> & { return p.variants[i].sched; });
       tryEdit([](Variant &v) { v.clock = 0; });
       tryEdit([](Variant &v) { v.stdoutBad = 0; });
       tryEdit([](Variant &v) { v.cb = 0; });
